@@ -21,7 +21,7 @@ Fixpoint gv_eqb (a b : gv) {struct a} : bool :=
   | VInt x, VInt y => Z.eqb x y
   | VStr x, VStr y => str_eqb x y
   | VPtr None, VPtr None | VIface None, VIface None | VSlice None, VSlice None | VMap None, VMap None => true
-  | VPtr (Some x), VPtr (Some y) | VIface (Some x), VIface (Some y) => gv_eqb x y
+  | VPtr (Some x), VPtr (Some y) | VIface (Some x), VIface (Some y) | VDyn _ x, VDyn _ y => gv_eqb x y
   | VSlice (Some x), VSlice (Some y) | VStruct x, VStruct y => go x y
   | VMap (Some x), VMap (Some y) =>
     (length x =? length y) &&
@@ -41,10 +41,10 @@ Definition res_eqb (r : res gv) (o : option gv) : bool :=
   end.
 
 Definition check_case (c : case) : bool :=
-  let r1 := dec_impl (c_fast c) (c_opts c) (c_ty c) (c_dst c) (c_item c) in
+  let r1 := dec_impl_x true (c_fast c) (c_opts c) (c_ty c) (c_dst c) (c_item c) in
   res_eqb r1 (c_obs c)
   && match r1 with
-     | Ok d1 => res_eqb (dec_impl (c_fast c) (c_opts c) (c_ty c) d1 (c_item c)) (c_twice c)
+     | Ok d1 => res_eqb (dec_impl_x true (c_fast c) (c_opts c) (c_ty c) d1 (c_item c)) (c_twice c)
      | _ => true
      end.
 
